@@ -5,6 +5,7 @@ from props.common import *
 from props import dtfam, c03
 
 ID = 'C11'
+GRAD_MODES = True
 PROPS_MODULE = 'Props.C11'
 THEOREMS = ['C11_colifilt', 'C11_rowifilt', 'C11_colfilter', 'C11_c2q', 'C11_absent_lowpass', 'C11_absent_highs']
 VO = ['theories/Props/C11.vo', 'theories/Run/RunDtcwt.vo', 'theories/Run/RunSpec.vo']
